@@ -144,8 +144,8 @@ Proof.
     pose proof (lookup_some k h e Ee) as [Eke Hine].
     destruct (is_ref e) eqn:Er.
     + set (h' := merge h (page_at (t_pages t) (e_off e) (e_size e))).
-      destruct (lookup k h') as [e'|] eqn:Ee'; [|discriminate].
-      destruct (is_ref e') eqn:Er'; [discriminate|].
+      destruct (page_describes k (page_at (t_pages t) (e_off e) (e_size e))) eqn:Ed; [|discriminate].
+      destruct (page_describes_merge k h _ e Ee Er Ed) as [e' [_ [Ee' Er']]]. fold h' in Ee'.
       apply IH; [apply incl_merge_E; exact Hh|].
       rewrite phi_app. pose proof (phi_merge h (page_at (t_pages t) (e_off e) (e_size e)) st') as Hm. fold h' in Hm.
       assert (Hck : (cost h' k + 1 <= cost h k)%nat).
